@@ -85,12 +85,14 @@ def main(jobs, out, shard, nshards):
                 continue        # not a rendering matter (C09)
             renders = []
             for fmt in registry:
-                for notn in ('polish', 'standard'):
-                    r = {'format': fmt, 'notation': notn, 'raised': '', 'same': 1, 'paths': []}
+                for notn, wopts in (('polish', {}), ('standard', {}), ('standard', {'drop_parens': False}), ('standard', {'identity_infix': False})):
+                    if wopts and fmt != 'text':
+                        continue
+                    r = {'format': fmt, 'notation': notn, 'raised': '', 'same': 1, 'paths': [], 'wopts': json.dumps(wopts, sort_keys=True)}
                     try:
-                        w = TabWriter(fmt, notn)
+                        w = TabWriter(fmt, notn, **wopts)
                         o1 = w(tab)
-                        o2 = TabWriter(fmt, notn)(tab)
+                        o2 = TabWriter(fmt, notn, **wopts)(tab)
                         r['same'] = int(o1 == o2 and o1 == w(tab))
                         if fmt == 'text':
                             lines = o1.split('\n')
@@ -100,8 +102,11 @@ def main(jobs, out, shard, nshards):
                         r['raised'] = f'{type(e).__name__}: {e}'[:200]
                     renders.append(r)
             recs = []
-            for notn in ('polish', 'standard'):
-                lw = TabWriter('text', notn).lw
+            base = TabWriter('text', 'standard').lw
+            for notn, wopts in (('polish', {}), ('standard', {}), ('standard', {'drop_parens': False}), ('standard', {'identity_infix': False})):
+                # the expected sentence text comes from an independently constructed lexical writer with the same options
+                lw = LexWriter(notn, base.format, base.dialect, **wopts) if notn == 'standard' else TabWriter('text', notn).lw
+                key = json.dumps(wopts, sort_keys=True)
                 branches = []
                 for b in tab:
                     nodes = []
@@ -112,8 +117,8 @@ def main(jobs, out, shard, nshards):
                         e.pop('s')
                         nodes.append(e)
                     branches.append({'nodes': nodes, 'closed': int(b.closed)})
-                recs.append({'id': f"{job['id']}/{notn}", 'logic': job['logic'], 'argstr': arg.argstr(), 'premature': int(tab.premature),
-                             'branches': branches, 'renders': [r for r in renders if r['notation'] == notn]})
+                recs.append({'id': f"{job['id']}/{notn}/{key}", 'logic': job['logic'], 'argstr': arg.argstr(), 'premature': int(tab.premature),
+                             'branches': branches, 'renders': [r for r in renders if r['notation'] == notn and r['wopts'] == key]})
             for rec in recs:
                 o.write(json.dumps(rec, separators=(',', ':')) + '\n')
 
